@@ -10,6 +10,7 @@ import (
 // chooses the next step from what it has observed (the offsets of the last dump), never from a
 // model of the store.
 type SeqProfile struct {
+	OneShot   bool // (c19) a hidden self-dropping trigger is registered before every recorded trigger
 	Name      string
 	Cols      []ColDesc // columns created up front
 	Late      []ColDesc // columns that may be created later, over existing rows
@@ -384,6 +385,7 @@ func (g *seqGen) snapCycle(n int) {
 // RunSeq runs one random sequential history and returns its events.
 func RunSeq(seed int64, p SeqProfile) (out []Ev) {
 	g := &seqGen{p: p, rnd: rand.New(rand.NewSource(seed)), w: NewWorld(), affine: map[string]int{}}
+	g.w.OneShot = p.OneShot
 	w := g.w
 	defer w.Close()
 	defer func() {
